@@ -43,6 +43,31 @@ def seed(rng, big):
     return M
 
 
+def presentation_lines(ctx, label, nseeds, per):
+    """(M, permuted M) pairs, kind 1, for many presentations (binary pivots, then row/column permutations) of the same
+    regular matroids that need 3-sums: the decomposition's search for 3-separations depends on the order of rows and
+    columns, the verdicts (and hence the flags of the decomposition's root) must not"""
+    strategies = list(gen.STRATEGIES.values())
+    plines = []
+    prng = ctx.rng.fork(label)
+    pseeds = [S for S in gen.deep_binary_seeds(prng, nseeds, 400) if len(S) >= 6]
+    for S in pseeds:
+        for k in range(per):
+            if k % 25 == 0:
+                B = [r[:] for r in S]
+                for _ in range(prng.below(4)):
+                    nz = [(i, j) for i in range(len(B)) for j in range(len(B[0])) if B[i][j]]
+                    r, c = prng.choice(nz)
+                    B = [[(B[i][j] + (B[i][c] * B[r][j] if i != r and j != c else 0)) % 2 for j in range(len(B[0]))]
+                         for i in range(len(B))]
+                m, n = len(B), len(B[0])
+            rp = prng.shuffle(list(range(m)))
+            cp = prng.shuffle(list(range(n)))
+            N = [[B[i][j] for j in cp] for i in rp]
+            plines.append("%d 1 %s %s %s %s" % (prng.choice(strategies), fmt(rp), fmt(cp), mat_line(B, m, n), mat_line(N)))
+    return plines
+
+
 def run(ctx):
     q = ctx.quick
     rng = ctx.rng.fork("rel")
@@ -134,5 +159,8 @@ def run(ctx):
                         N[i][j] = v
                 p1, p2 = [r, c], []
             lines.append("%d %d %s %s %s %s" % (strat, kind, fmt(p1), fmt(p2), mat_line(M, m, n), mat_line(N)))
+    plines = presentation_lines(ctx, "presentations", 30 if q else 300, 300 if q else 1200)
+    ctx.stream("rel", plines, "many presentations of regular matroids that need 3-sums", describe=lambda c: CODES.get(c, str(c)),
+               nontrivial=lambda l, r: True)
     ctx.stream("rel", lines, "verdict relations on transformed presentations", describe=lambda c: CODES.get(c, str(c)),
                nontrivial=lambda l, r: True)
